@@ -30,18 +30,30 @@ func init() {
 	errbase.RegisterSpecialCasePrinter(specialCaseFormat)
 }
 
+// safeSentinels are standard errors whose message is known to be safe.
+var safeSentinels = []error{
+	context.DeadlineExceeded,
+	context.Canceled,
+	os.ErrInvalid,
+	os.ErrPermission,
+	os.ErrExist,
+	os.ErrNotExist,
+	os.ErrClosed,
+	os.ErrNoDeadline,
+}
+
 func specialCaseFormat(err error, p errbase.Printer, isLeaf bool) (handled bool, next error) {
-	if isLeaf && markers.IsAny(err,
-		context.DeadlineExceeded,
-		context.Canceled,
-		os.ErrInvalid,
-		os.ErrPermission,
-		os.ErrExist,
-		os.ErrNotExist,
-		os.ErrClosed,
-		os.ErrNoDeadline) {
-		p.Print(redact.Safe(err.Error()))
-		return true, nil
+	if isLeaf {
+		for _, ref := range safeSentinels {
+			// The sentinel itself, or a copy of it received over the
+			// network. An error that merely claims to be the sentinel
+			// through its own Is() method can carry an arbitrary
+			// message, which is not known to be safe.
+			if markers.Is(err, ref) && err.Error() == ref.Error() {
+				p.Print(redact.Safe(err.Error()))
+				return true, nil
+			}
+		}
 	}
 
 	switch v := err.(type) {
@@ -50,6 +62,10 @@ func specialCaseFormat(err error, p errbase.Printer, isLeaf bool) (handled bool,
 		p.Print(redact.Safe(v.Error()))
 		return true, err
 	case syscall.Errno:
+		p.Print(redact.Safe(v.Error()))
+		return true, err
+	case *errbase.OpaqueErrno:
+		// An errno from another platform.
 		p.Print(redact.Safe(v.Error()))
 		return true, err
 	case *os.SyscallError:
